@@ -499,3 +499,167 @@ def ancestor_walk_rule(ctx, rc, reserve, release):
         else:
             rc.ok({'set': attr, 'reserve': 'loop', 'release': 'loop'},
                   key=key)
+
+
+def subfiles_rule(ctx, rc, cls='CreatedFiles'):
+    """The overlay's listing map (directory -> created entries): the
+    forgetting helper undoes what the registering helper does, and says so.
+    In the function that removes an entry: every normal return lies behind
+    the removal of the entry from the directory's inner map, except on the
+    path on which the argument was found to be a root (nothing to remove);
+    ``return True`` ("the directory's entry is gone") lies behind the
+    removal of the directory's own entry, which in turn is reached only when
+    the inner map has become empty; and the overlay registers a finished
+    file in the listing like it registers directories."""
+    from .. import queries as Q
+    prog = ctx.prog
+    C = prog.classes.get(cls)
+    if C is None:
+        raise AnalysisError('anchor vanished: class ' + cls)
+    # the adder: stores into an inner dict obtained by setdefault on a map
+    adder = remover = None
+    mattr = None
+    for m in C.methods.values():
+        for c in prog.calls_in(m):
+            f = c.func
+            if isinstance(f, ast.Attribute) and f.attr == 'setdefault' and \
+                    isinstance(f.value, ast.Attribute) and isinstance(
+                        f.value.value, ast.Name) and \
+                    f.value.value.id == m.self_name:
+                adder, mattr = m, f.value.attr
+    if adder is None:
+        raise AnalysisError('listing map of %s not identified' % cls)
+    for m in C.methods.values():
+        if m is adder or m.name == '__init__':
+            continue
+        if any(isinstance(c.func, ast.Attribute) and c.func.attr == 'pop'
+               and isinstance(c.func.value, ast.Attribute) and
+               c.func.value.attr == mattr for c in prog.calls_in(m)):
+            remover = m
+    if remover is None:
+        rc.violation(
+            'listing-never-removed | %s.%s' % (cls, mattr),
+            'no method of %s ever removes a directory\'s entry from .%s: '
+            'the overlay keeps listing directories whose outputs all '
+            'failed' % (cls, mattr), prog.loc(adder, adder.node),
+            key='the listing map is emptied somewhere')
+        return
+    sg = ctx.E.super(remover, lambda g: False)
+    inner = {t.id for n in ast.walk(remover.node)
+             if isinstance(n, ast.Assign) and isinstance(
+                 n.value, ast.Subscript) and isinstance(
+                     n.value.value, ast.Attribute) and
+             n.value.value.attr == mattr for t in n.targets
+             if isinstance(t, ast.Name)}
+
+    def inner_pop(x):
+        return x.kind == 'ret' and x.call is not None and isinstance(
+            x.call.func, ast.Attribute) and x.call.func.attr in (
+                'pop', '__delitem__') and isinstance(
+                    x.call.func.value, ast.Name) and \
+            x.call.func.value.id in inner
+
+    def map_pop(x):
+        return x.kind == 'ret' and x.call is not None and isinstance(
+            x.call.func, ast.Attribute) and x.call.func.attr == 'pop' and \
+            isinstance(x.call.func.value, ast.Attribute) and \
+            x.call.func.value.attr == mattr
+
+    def root_fact(lab):
+        # T-edge of ``<split head> == <argument>``
+        if not (isinstance(lab, tuple) and len(lab) == 4 and lab[0] == 'T'):
+            return False
+        a = lab[1]
+        return isinstance(a, ast.Compare) and len(a.ops) == 1 and \
+            isinstance(a.ops[0], ast.Eq) and any(
+                isinstance(s_, ast.Name) and s_.id in remover.params
+                for s_ in (a.left, a.comparators[0]))
+    ends = set(sg.normal_exits())
+    # (1) every non-root return removed the entry
+    seen = sg.reach([sg.entry], avoid=inner_pop,
+                    edge_ok=lambda a, b, lab: not root_fact(lab))
+    key = '%s removes the entry on every non-root path' % remover.qualname
+    hit = [e for e in ends if e in seen]
+    if hit:
+        rc.violation(
+            'listing-remove | ' + remover.qualname,
+            '%s can return without having removed the entry from the '
+            'directory\'s map although the argument is not a root: a failed '
+            'output stays listed in the overlay' % remover.qualname,
+            prog.loc(remover, remover.node),
+            sg.describe_path(sg.witness(seen, hit[0])), key=key)
+    else:
+        rc.ok({'remover': remover.qualname}, key=key)
+    # (2) "True" only after the directory's own entry was removed
+    seen = sg.reach([sg.entry], avoid=map_pop)
+    key = '%s: True only after the directory entry is gone' % \
+        remover.qualname
+    if sg.exits['T'] in seen:
+        rc.violation(
+            'listing-verdict | ' + remover.qualname,
+            '%s can answer True ("the directory has no created entries '
+            'left") without having removed the directory\'s entry, so the '
+            'caller climbs on while the directory is still listed' %
+            remover.qualname, prog.loc(remover, remover.node),
+            sg.describe_path(sg.witness(seen, sg.exits['T'])), key=key)
+    else:
+        rc.ok({'verdict': 'True => directory entry removed'}, key=key)
+    # (2b) ... and "False" on a non-root path only while entries remain
+    pops = [x for x in sg.nodes if map_pop(x)]
+    post = sg.reach([x.id for x in pops])
+    key = '%s: False only while entries remain' % remover.qualname
+    if pops and sg.exits['F'] in post:
+        rc.violation(
+            'listing-verdict | ' + remover.qualname + ' | False',
+            '%s can answer False after it removed the directory\'s entry: '
+            'the caller stops climbing and the parent keeps listing a '
+            'directory that is gone' % remover.qualname,
+            prog.loc(remover, remover.node), key=key)
+    else:
+        rc.ok({'verdict': 'False => directory entry kept'}, key=key)
+    # (3) the directory's entry is removed only when the inner map is empty
+    key = '%s removes the directory entry only when it is empty' % \
+        remover.qualname
+    bad = None
+    for x in sg.nodes:
+        if x.kind == 'leaf' and x.call is not None and isinstance(
+                x.call.func, ast.Attribute) and x.call.func.attr == 'pop' \
+                and isinstance(x.call.func.value, ast.Attribute) and \
+                x.call.func.value.attr == mattr:
+            facts = Q.control_facts(sg, x.id)
+            ok = any(isinstance(a, ast.Name) and a.id in inner and pol == 'F'
+                     for pol, a, f_, c_ in facts) or any(
+                isinstance(a, ast.Call) and isinstance(a.func, ast.Name)
+                and a.func.id == 'len' and pol == 'F'
+                for pol, a, f_, c_ in facts)
+            if not ok:
+                bad = x
+    if bad is not None:
+        rc.violation(
+            'listing-empty | ' + remover.qualname,
+            'the directory\'s entry is removed from .%s although its inner '
+            'map was not found empty: other created entries of the '
+            'directory disappear from the overlay' % mattr, bad.where(),
+            key=key)
+    else:
+        rc.ok({'condition': 'inner map empty'}, key=key)
+    # (4) a finished file is registered in the listing
+    fin = C.methods.get('finished_building_file')
+    key = 'a finished output is listed in the overlay'
+    if fin is None:
+        raise AnalysisError('anchor vanished: %s.finished_building_file' %
+                            cls)
+    sgf = ctx.E.super(fin, lambda g: False)
+    w = Q.first_unguarded(sgf, [sgf.entry],
+                          lambda x: Q.is_done(x, adder.qualname),
+                          lambda x: x.id in sgf.normal_exits())
+    if w:
+        rc.violation(
+            'listing-finished | ' + fin.qualname,
+            '%s can return without registering the finished file in the '
+            'listing map (%s): a replayed list_dir / walk does not show the '
+            'output and the record is re-executed on every build' % (
+                fin.qualname, adder.qualname), prog.loc(fin, fin.node),
+            key=key)
+    else:
+        rc.ok({'registers': adder.qualname}, key=key)
